@@ -637,39 +637,45 @@ func (t *stdioClientTransport) close() error {
 	// Cancel context first.
 	t.cancel()
 
+	// The process may be starting on another goroutine: read what it stored under the start lock
+	// (startProcessLocked refuses to start once closed is set).
+	t.startMutex.Lock()
+	stdin, stdout, stderr, process, waitDone := t.stdin, t.stdout, t.stderr, t.process, t.waitDone
+	t.startMutex.Unlock()
+
 	// Close pipes
-	if t.stdin != nil {
-		if err := t.stdin.Close(); err != nil {
+	if stdin != nil {
+		if err := stdin.Close(); err != nil {
 			errs = append(errs, fmt.Errorf("failed to close stdin: %w", err))
 		}
 	}
 
-	if t.stdout != nil {
-		if err := t.stdout.Close(); err != nil {
+	if stdout != nil {
+		if err := stdout.Close(); err != nil {
 			errs = append(errs, fmt.Errorf("failed to close stdout: %w", err))
 		}
 	}
 
-	if t.stderr != nil {
-		if err := t.stderr.Close(); err != nil {
+	if stderr != nil {
+		if err := stderr.Close(); err != nil {
 			errs = append(errs, fmt.Errorf("failed to close stderr: %w", err))
 		}
 	}
 
 	// Terminate process gracefully.
-	if t.process != nil && t.process.Process != nil {
+	if process != nil && process.Process != nil {
 		// First try SIGTERM
-		if err := t.process.Process.Signal(os.Interrupt); err != nil {
+		if err := process.Process.Signal(os.Interrupt); err != nil {
 			t.logger.Debugf("Failed to send SIGTERM: %v", err)
 		}
 
 		// Wait a bit for graceful shutdown (processWatcher waits for the process; Cmd.Wait must be called once).
 		select {
-		case <-t.waitDone:
+		case <-waitDone:
 			t.logger.Debugf("Process terminated gracefully")
 		case <-time.After(5 * time.Second):
 			// Force kill.
-			if err := t.process.Process.Kill(); err != nil {
+			if err := process.Process.Kill(); err != nil {
 				errs = append(errs, fmt.Errorf("failed to kill process: %w", err))
 			} else {
 				t.logger.Debugf("Process force-killed")
@@ -709,8 +715,11 @@ func (t *stdioClientTransport) terminateSession(ctx context.Context) error {
 
 // getProcessID returns the process ID.
 func (t *stdioClientTransport) getProcessID() int {
-	if t.process != nil && t.process.Process != nil {
-		return t.process.Process.Pid
+	t.startMutex.Lock()
+	process := t.process
+	t.startMutex.Unlock()
+	if process != nil && process.Process != nil {
+		return process.Process.Pid
 	}
 	return 0
 }
@@ -724,10 +733,13 @@ func (t *stdioClientTransport) getCommandLine() []string {
 
 // isProcessRunning checks if the process is running.
 func (t *stdioClientTransport) isProcessRunning() bool {
-	if t.process == nil || t.process.Process == nil {
+	t.startMutex.Lock()
+	process := t.process
+	t.startMutex.Unlock()
+	if process == nil || process.Process == nil {
 		return false
 	}
 
 	// On Unix systems, sending signal 0 checks if process exists.
-	return t.process.Process.Signal(syscall.Signal(0)) == nil
+	return process.Process.Signal(syscall.Signal(0)) == nil
 }
